@@ -32,49 +32,13 @@ def region_of_meta(meta, tag):
     else:
         v1 = v
     if tag == "label":
-        org = meta.get("org")
-        low = org is None or org < 0x100
         if form in ("idxlbl", "idxlbl+1"):
             return "C3"            # a label as constant index offset is rejected
         if form in ("extind+1",):
             return "C3"
-        if form in ("dirf", "extf"):
-            return "A11"           # < and > are ignored for labels
-        if form in ("imm", "imm+1") and mn not in IS16:
-            return "A5"            # a 16-bit address as 8-bit immediate is accepted
-        if low:
-            return "A11"           # addresses below $100 render as one byte
         return None
-    if form == "idx" and meta.get("k") == "off":
-        if v < 0:
-            return "A4"
-        if mn in IS16 and v <= 127:
-            return "A3"
-        return None
-    if form in ("idxsym", "idxsymind"):
-        if mn in IS16 or True:
-            return "A3"            # EQU constants as index offsets: width comes from the symbol's rendering
     if form == "npcr":
         return "A9"
-    if form in ("imm", "imm+1"):
-        w16 = mn in IS16
-        if not w16 and not (-128 <= v1 <= 255):
-            return "A5"
-        if w16 and (v1 < 0 or sym):
-            return "A8"
-        if sym:
-            return "A8"
-        return None
-    if form == "dirf":
-        return "A5" if (v >= 256 or sym) else None
-    if form == "extf":
-        return "A6" if (v < 256 or sym) else None
-    if form == "extind":
-        return "A7" if (v < 256 or sym) else None
-    if form in ("mem", "mem+1"):
-        if sym:
-            return "A13"
-        return None
     if form == "list":
         regs = meta.get("regs", [])
         if "S" in regs or "U" in regs:
@@ -85,13 +49,7 @@ def region_of_meta(meta, tag):
 
 SHAPES = [
     (re.compile(r"^\[?[^,\[\]]*,PCR\]?$"), "A9"),
-    (re.compile(r"^\[?[^,\[\]]+,[^,\[\]]*\]?$"), "A3"),      # n,R  (offset width / negative offsets / register detection by substring)
-    (re.compile(r"^\[?,[^,\[\]]*\]?$"), "A10"),              # ,R forms: register detection by substring
-    (re.compile(r"^\[[^,\[\]]*\]$"), "A7"),
-    (re.compile(r"^#"), "A5"),
-    (re.compile(r"^<"), "A5"),
-    (re.compile(r"^>"), "A6"),
-    (re.compile(r"^[^,]*$"), "A11"),                         # plain value / symbol / expression
+    (re.compile(r"^\[?[^,\[\]]*,[^,\[\]]*\]?$"), "A10"),      # n,R / ,R forms: register detection by substring
     (re.compile(r","), "A10"),                               # register lists
 ]
 
@@ -286,7 +244,7 @@ def run_c02(run, thorough=False):
         noaddr = [s for s in stmts if not s["addr"]]
         if noaddr:
             # an ORG whose operand is not a number keeps a symbol as "address": the listing shows no address and the origin is 0
-            rid = "B9" if all(s["mn"] == "ORG" for s in noaddr) else None
+            rid = None          # (was finding B9: ORG <symbol>; repaired in 3dd5ba5)
             run.violate("C02: a statement of an accepted program has no listing address", inp, "an address", [[s["mn"], s["opnd"]] for s in noaddr][:3],
                         known_id=rid if (rid and same) else None)
             continue
@@ -342,7 +300,7 @@ BR_RE = re.compile(r"^(?P<lab>[A-Za-z@][\w@]*)(?P<k>[+-]\d+)?$")
 def run_c03(run, thorough=False):
     rnd = random.Random(run.seed * 727 + 13)
     cases = list(gen_asm.branch_sweep(rnd, thorough)) + list(gen_asm.pcr_interacting(rnd, 60 if not thorough else 1500)) + \
-        list(gen_asm.random_programs(rnd, 150 if not thorough else 2000, valid_bias=0.97))
+        list(gen_asm.pcr_runs(rnd, thorough)) + list(gen_asm.random_programs(rnd, 150 if not thorough else 2000, valid_bias=0.97))
     res = fam_asm.compare_progs(run, "asm.disp", cases, project=proj_layout)
     bad = {fam_asm_key(d["input"]) for d in run.disagreements}
     todo = []
@@ -393,7 +351,7 @@ def run_c03(run, thorough=False):
         inp = {"lines": c["lines"] if len(c["lines"]) < 40 else c["lines"][:3] + ["... (%d lines)" % len(c["lines"])], "statement": [i, st["mn"], st["opnd"]]}
         if kind == "branch-nonlabel":
             run.violate("C03: a branch to something that is not a label (+constant) is accepted", inp, "diag or a displacement reaching the target",
-                        st["bytes"], known_id="B3" if same else None)
+                        st["bytes"])          # (was finding B3; repaired in 06f4653)
             continue
         addr = stmt_int_addr(st)
         if not d.get("ok") or d["n"] != len(st["bytes"]) // 2:
@@ -405,7 +363,7 @@ def run_c03(run, thorough=False):
             run.violate("C03: a label,PCR operand is not encoded as a PC-relative operand", inp, "pcr", {k: d[k] for k in d if k not in ("id", "ok")})
             continue
         if (addr + d["n"] + disp - tgt) % 65536 != 0:
-            rid = size_region(im) or ("B3" if kind == "branch" and BR_RE.match(st["opnd"]).group("k") else None)
+            rid = size_region(im)
             if rid is None:
                 # an ORG after the first byte-emitting statement (finding B1): displacements are sums of sizes, not address differences
                 emitted = False
@@ -437,18 +395,10 @@ def region_c04(meta, val):
     pos = meta["pos"]
     if pos == "equ":
         return "C4"                      # EQU of an expression is not evaluated
-    if pos in ("fdb", "fcb"):
-        return "C2"                      # expressions / symbols in data directives emit 0
-    if pos == "idx":
-        return "A3"
     if pos == "pcr":
         return "A9"
-    if pos == "extind":
-        return "A7"
-    if pos == "imm":
-        return "A8"
-    if pos == "mem":
-        return "A13"
+    if pos == "mem" and val is not None and val < 0:
+        return "A13"                     # a negative expression result loses its sign as a memory operand
     return None
 
 
@@ -512,7 +462,7 @@ def run_c04(run, thorough=False):
             continue
         if val is None:
             if im["k"] != "diag":
-                rid = "C2" if m["pos"] in ("fcb", "fdb") else None      # data directives do not evaluate expressions at all
+                rid = None
                 run.violate("C04: division by zero is not rejected with a diagnostic", inp, "diag", im["k"], known_id=rid if (rid and same) else None)
             continue
         if im["k"] == "diag":
@@ -531,7 +481,7 @@ def run_c04(run, thorough=False):
             continue
         if pos in ("fdb", "fcb"):
             got = int(st["bytes"], 16) if st["bytes"] else None
-            want = v16 if pos == "fdb" else (v16 if v16 < 256 else None)
+            want = v16 if pos == "fdb" else (val % 256 if -128 <= val <= 255 else None)
             okay = (got == want and len(st["bytes"]) == (4 if pos == "fdb" else 2))
         elif pos == "equ":
             okay = d.get("ok") and d.get("mode") == "imm" and d.get("v") == v16 and d["n"] == len(st["bytes"]) // 2
@@ -595,6 +545,20 @@ def run_c05(run, thorough=False):
             rid = None
             run.violate("C13/C05: a data directive ends in an internal error", inp, "ok|diag", [im["k"], im.get("exc")], known_id=rid if (rid and same) else None)
             continue
+        if mn == "DATASYM":
+            exp = m["expect"]
+            if exp is None:
+                if im["k"] == "ok":
+                    run.violate("C05/C04: a data directive / RMB / ORG operand that has no value of the directive's width is accepted", inp, "diag", "ok")
+            elif im["k"] != "ok":
+                run.violate("C05/C04: a symbol, expression or label in a data directive / RMB / ORG is rejected", inp, "ok", im["k"])
+            else:
+                for i, want in exp.items():
+                    g = im["stmts"][int(i)]["bytes"]
+                    if g != want:
+                        run.violate("C05/C04: a data directive does not emit the value of its symbol / expression / label operand", dict(inp, statement=int(i)),
+                                    want[:60], (g or "")[:60])
+            continue
         st = im["stmts"][m["stmt"]] if im["k"] == "ok" else None
         got = st["bytes"] if st else None
         if st is not None and got is None:
@@ -610,12 +574,8 @@ def run_c05(run, thorough=False):
             fits = all(-(1 << (8 * w - 1)) <= v < (1 << (8 * w)) for v in vals)
             want = "".join("%0*x" % (2 * w, v % (1 << (8 * w))) for v in vals) if fits else None
             rid = None
-            if any(e == "SYM" for e in m["elems"]):
-                rid = "C2"
-            elif any(v < 0 for v in vals):
-                rid = "D1"
-            elif not fits:
-                rid = "D2"
+            if any(e == "SYM" for e in m["elems"]) and len(m["elems"]) > 1:
+                rid = "C2"            # a symbol inside a LIST is rejected (single values are evaluated since 3dd5ba5)
             if want is None:
                 if im["k"] == "ok":
                     run.violate("C05: a value that does not fit the directive's width is not rejected", inp, "diag", got, known_id=rid if same else None)
@@ -629,9 +589,9 @@ def run_c05(run, thorough=False):
                 continue
             if n < 0 or n > 65535:
                 if im["k"] == "ok":
-                    run.violate("C05: RMB with a negative count is not rejected", inp, "diag", got[:40], known_id="D4" if same else None)
+                    run.violate("C05: RMB with a negative count is not rejected", inp, "diag", got[:40])
                 continue
-            rid = "C2" if v == "SYM" else None
+            rid = None
             if got != "00" * n:
                 run.violate("C05: RMB n does not reserve exactly n zero bytes", inp, "%d zero bytes" % n, None if got is None else "%d bytes" % (len(got) // 2),
                             known_id=rid if (rid and same) else None)
